@@ -61,6 +61,33 @@ TYPES = {
 }
 
 
+# further semantic values per type (valid spellings with empty values, zero numbers, single and many elements): the corpus
+# harvested from the repository's tests has one or two values per type
+EXTRA_VALUES = {
+    'cryptoparser.httpx.header:HttpHeaderFieldValueSetCookie': (
+        'sid=; Max-Age=0', 'a=', 'name=value; Path=/; Secure', 'k=v; Domain=example.com; HttpOnly; SameSite=Strict',
+        'x=y; Max-Age=86400', 'sid=abc; Expires=Thu, 01 Jan 1970 00:00:00 GMT'),
+    'cryptoparser.httpx.header:HttpHeaderFieldValueSTS': (
+        'max-age=0', 'max-age=31536000; includeSubDomains', 'max-age=63072000; includeSubDomains; preload'),
+    'cryptoparser.httpx.header:HttpHeaderFieldValueExpectCT': ('max-age=0', 'max-age=86400, enforce'),
+    'cryptoparser.httpx.header:HttpHeaderFieldValueCacheControlResponse': (
+        'no-store', 'max-age=0', 'public, max-age=604800', 'private, no-cache, must-revalidate', 's-maxage=10, proxy-revalidate'),
+    'cryptoparser.httpx.header:HttpHeaderFieldValueContentType': ('text/plain', 'application/json; charset=utf-8'),
+    'cryptoparser.httpx.header:HttpHeaderFieldValueXXSSProtection': ('0', '1', '1; mode=block'),
+    'cryptoparser.httpx.header:HttpHeaderFieldValueContentSecurityPolicy': (
+        "default-src 'none'", "default-src 'self'; img-src *; script-src 'self' https://example.com", 'upgrade-insecure-requests',
+        "script-src 'self' 'unsafe-inline' https://a.example https://b.example data:; object-src 'none'"),
+    'cryptoparser.dnsrec.txt:DnsRecordTxtValueSpf': (
+        'v=spf1 -all', 'v=spf1 x= -all', 'v=spf1 a mx ~all', 'v=spf1 ip4:192.0.2.0/24 ip6:2001:db8::/32 include:example.net ?all',
+        'v=spf1 redirect=example.org', 'v=spf1 a:a.example mx:b.example/24 exists:%{i}.c.example -all'),
+    'cryptoparser.dnsrec.txt:DnsRecordTxtValueDmarc': (
+        'v=DMARC1; p=none', 'v=DMARC1; p=reject; rua=mailto:a@example.com; pct=100', 'v=DMARC1; p=quarantine; sp=none; adkim=s; aspf=r'),
+    'cryptoparser.dnsrec.txt:DnsRecordTxtValueMtaSts': ('v=STSv1; id=1', 'v=STSv1; id=20160831085700Z'),
+    'cryptoparser.dnsrec.txt:DnsRecordTxtValueTlsRpt': (
+        'v=TLSRPTv1; rua=mailto:a@example.com', 'v=TLSRPTv1; rua=https://example.com/report'),
+}
+
+
 def split_top(text, sep):
     """Split at `sep` outside double quotes."""
     parts, current, quoted = [], '', False
